@@ -5,16 +5,32 @@ go 1.26
 require (
 	github.com/anishathalye/porcupine v1.3.0
 	github.com/dtn7/dtn7-go v0.0.0
+	github.com/gorilla/mux v1.8.0
 	github.com/sirupsen/logrus v1.7.0
+	github.com/timshannon/badgerhold v1.0.0
 	github.com/ulikunitz/xz v0.5.8
 )
 
 require (
+	github.com/AndreasBriese/bbloom v0.0.0-20190825152654-46b345b51c96 // indirect
+	github.com/RyanCarrier/dijkstra v1.0.0 // indirect
+	github.com/cespare/xxhash v1.1.0 // indirect
+	github.com/dgraph-io/badger v1.6.2 // indirect
+	github.com/dgraph-io/ristretto v0.0.3 // indirect
 	github.com/dtn7/cboring v0.1.5 // indirect
+	github.com/dtn7/rf95modem-go v0.3.1 // indirect
+	github.com/dustin/go-humanize v1.0.0 // indirect
+	github.com/golang/protobuf v1.4.3 // indirect
+	github.com/gorilla/websocket v1.4.2 // indirect
 	github.com/hashicorp/errwrap v1.1.0 // indirect
 	github.com/hashicorp/go-multierror v1.1.0 // indirect
 	github.com/howeyc/crc16 v0.0.0-20171223171357-2b2a61e366a6 // indirect
+	github.com/pkg/errors v0.9.1 // indirect
+	github.com/schollz/peerdiscovery v1.6.1 // indirect
+	github.com/tarm/serial v0.0.0-20180830185346-98f6abe2eb07 // indirect
+	golang.org/x/net v0.0.0-20201110031124-69a78807bb2b // indirect
 	golang.org/x/sys v0.0.0-20201117222635-ba5294a509c7 // indirect
+	google.golang.org/protobuf v1.25.0 // indirect
 )
 
 replace github.com/dtn7/dtn7-go => /repo
